@@ -3,7 +3,10 @@
 (*                                                                             *)
 (* Init picks one call per goroutine out of the call universe (every          *)
 (* combination of step/signal, known/unknown IDs, runs, accepted/rejected raw  *)
-(* inputs and handler behaviours the constants allow); Next interleaves them.  *)
+(* inputs and handler behaviours the constants allow; the steps in MapSteps    *)
+(* - input scope map-based - are also called with the raw input classes        *)
+(* MapInputs: defaulted property omitted, lenient representations); Next       *)
+(* interleaves them.                                                           *)
 (*                                                                             *)
 (* Normal = FALSE: every interleaving of every stage (the properties are       *)
 (*   checked over all of them).                                                *)
@@ -17,7 +20,11 @@
 (*   schedule reaches its own terminal state and is exported there.            *)
 EXTENDS Steps, Export
 
-CONSTANTS Inputs,       \* raw input classes used
+CONSTANTS Inputs,       \* raw input classes used (for every step and signal)
+          MapSteps,     \* steps whose input scope and signal data scope are map-based (schema.NewObjectSchema:
+                        \* unserialized value and raw input are both map[string]any; handler typed map[string]any)
+          MapInputs,    \* accepted raw input classes used, in addition, for the steps in MapSteps: "vd" (a
+                        \* defaulted property omitted), "vl" (values accepted by lenient conversion)
           BehSet,       \* step handler behaviours used
           WithUnknown,  \* include unknown step / unknown signal calls
           Normal, KeepHist
@@ -31,14 +38,19 @@ MkCall(k, s, r, g, i, b) == [kind |-> k, step |-> s, run |-> r, sig |-> g, input
 R0 == CHOOSE r \in Runs : TRUE
 V0 == CHOOSE i \in Inputs \cap ValidInputs : TRUE
 B0 == CHOOSE b \in BehSet : TRUE
+B1 == IF "ok" \in BehSet THEN "ok" ELSE B0
+
+ASSUME MapInputs \subseteq ValidInputs
 
 StepCalls ==
     {MkCall("step", s, r, "none", i, B0) : s \in StepIds, r \in Runs, i \in Inputs \ ValidInputs}
     \cup {MkCall("step", s, r, "none", i, b) : s \in StepIds, r \in Runs, i \in Inputs \cap ValidInputs, b \in BehSet}
+    \cup {MkCall("step", s, r, "none", i, B1) : s \in MapSteps \cap StepIds, r \in Runs, i \in MapInputs \ Inputs}
     \cup (IF WithUnknown THEN {MkCall("step", NoStep, R0, "none", V0, B0)} ELSE {})
 
 SignalCalls ==
     {MkCall("signal", s, r, SigId, i, "none") : s \in StepIds, r \in Runs, i \in Inputs}
+    \cup {MkCall("signal", s, r, SigId, i, "none") : s \in MapSteps \cap StepIds, r \in Runs, i \in MapInputs \ Inputs}
     \cup (IF WithUnknown
           THEN {MkCall("signal", s, r, NoSig, V0, "none") : s \in StepIds, r \in Runs}
                \cup {MkCall("signal", NoStep, R0, SigId, V0, "none")}
@@ -80,5 +92,6 @@ ModelOK == HandlerIffValid /\ ExactArgument /\ ErrorClass /\ InitOncePerRun /\ N
 Export ==
     (AllDone /\ KeepHist) =>
         Emit([calls |-> call, hist |-> hist, ledger |-> ledger, res |-> res,
-              ic |-> initCount, sd |-> stepData, racy |-> racy, noinit |-> NoInitSteps])
+              ic |-> initCount, sd |-> stepData, racy |-> racy, noinit |-> NoInitSteps,
+              mapsteps |-> MapSteps])
 =============================================================================
